@@ -11,7 +11,7 @@ import numpy as np
 from collections import OrderedDict
 import functools
 
-from ._files import PseudoNetCDFFile
+from ._files import PseudoNetCDFFile, _getncattr
 from ._variables import PseudoNetCDFMaskedVariable, PseudoNetCDFVariable
 
 # Functions to be available for pncexpr
@@ -861,7 +861,7 @@ def pncexpr(expr, ifile, verbose=0):
     else:
         tmpvar = PseudoNetCDFVariable(None, 'temp', 'f', ())
 
-    propd = dict([(k, getattr(tmpvar, k)) for k in tmpvar.ncattrs()])
+    propd = dict([(k, _getncattr(tmpvar, k)) for k in tmpvar.ncattrs()])
     dimt = tmpvar.dimensions
     # Add all used constants as properties
     # of the output file
@@ -874,7 +874,7 @@ def pncexpr(expr, ifile, verbose=0):
     exec('from scipy.constants import *', None, vardict)
     for k in ifile.ncattrs():
         if k not in vardict:
-            vardict[k] = getattr(ifile, k)
+            vardict[k] = _getncattr(ifile, k)
     # oldkeys = set(vardict.keys())
 
     # Assign expression to new variable.
